@@ -15,10 +15,14 @@ func vFill(b []byte, x byte) {
 // return the DB does not reach the caller's key/value arrays;
 // (2) semantic double check (also meaningful natively): the caller scribbles
 // over everything it owns, later operations run, and contents are compared again.
+// records per segment (1: every Put rolls the log over, so that reads hit sealed,
+// non-current segments)
+var c14SegRecords = 2
+
 func hC14(n, L, vlen int) { hC14on(fs.Mem, "c14", n, L, vlen) }
 
 func hC14on(fsys fs.FileSystem, dir string, n, L, vlen int) {
-	opts := smallOpts(fsys, 2, 10+8+vlen)
+	opts := smallOpts(fsys, c14SegRecords, 10+8+vlen)
 	db, err := Open(dir, opts)
 	vAssert(err == nil, "C14.open")
 	if err != nil {
@@ -193,3 +197,7 @@ func H_C14_emptymmap() { hC14on(fs.OSMMap, "c14emmap", 2, 2, 0) }
 func H_C14_mmap() { hC14on(fs.OSMMap, "c14mmap", 2, 2, 2) }
 func H_C14_os()   { hC14on(fs.OS, "c14os", 2, 2, 2) }
 func H_C14_t()    { hC14(2, 3, 3) }
+
+// one record per segment: results of Get/GetAppend/Next come from sealed segments
+func H_C14_roll()     { c14SegRecords = 1; hC14(2, 2, 2) }
+func H_C14_rollmmap() { c14SegRecords = 1; hC14on(fs.OSMMap, "c14rmmap", 2, 2, 2) }
